@@ -46,10 +46,12 @@ class W:
         fe0.outputs[0].name = "fe"
         fthen = ir.Graph([], [fb0.outputs[0]], nodes=[fb0], name="f_then")
         felse = ir.Graph([], [fe0.outputs[0]], nodes=[fe0], name="f_else")
-        fif = ir.Node("", "If", [fc], [ir.AttrGraph("then_branch", fthen), ir.AttrGraph("else_branch", felse)], name="f_if")
+        # reference attributes (scalar and GRAPH typed) listed before the attributes that carry the bodies
+        fif = ir.Node("", "If", [fc], [ir.RefAttr("level", "f_level", ir.AttributeType.INT), ir.RefAttr("spare_branch", "f_branch", ir.AttributeType.GRAPH),
+                                       ir.AttrGraph("then_branch", fthen), ir.AttrGraph("else_branch", felse)], name="f_if")
         fif.outputs[0].name = "fo"
         fgraph = ir.Graph([fx, fc], [fif.outputs[0]], nodes=[fif], name="F_body", opset_imports={"": 21})
-        func = ir.Function("local", "F", "", graph=fgraph, attributes=[])
+        func = ir.Function("local", "F", "", graph=fgraph, attributes=[ir.Attr("f_level", ir.AttributeType.INT, None), ir.Attr("f_branch", ir.AttributeType.GRAPH, None)])
         n3 = ir.Node("local", "F", [self.x, self.c], name="n3")
         n3.outputs[0].name = "q"
         g = ir.Graph([self.x, self.w, self.c], [n1.outputs[0], n2.outputs[0], n3.outputs[0]], nodes=[n0, n1, n2, n3], name="main", opset_imports={"": 21, "local": 1})
@@ -61,9 +63,22 @@ class W:
 
     # slot resolution by name so that it survives clone / round trip
     def all_nodes(self):
-        out = list(self.model.graph.all_nodes())
+        # the harness's own traversal: the library's recursive iterator is one of the things under check
+        def walk(g):
+            for n in list(g):
+                yield n
+                for a in n.attributes.values():
+                    if a.is_ref():
+                        continue
+                    if a.type == ir.AttributeType.GRAPH:
+                        yield from walk(a.as_graph())
+                    elif a.type == ir.AttributeType.GRAPHS:
+                        for sg in a.as_graphs():
+                            yield from walk(sg)
+
+        out = list(walk(self.model.graph))
         for f in self.model.functions.values():
-            out += list(f.all_nodes())
+            out += list(walk(f))
         return out
 
     def nodes(self):
